@@ -5,6 +5,7 @@ import (
 	"encoding/hex"
 	"fmt"
 	"os"
+	"regexp"
 	"sort"
 	"strconv"
 	"strings"
@@ -288,11 +289,47 @@ func groupModel(src string) *model.V {
 	return m
 }
 
+// Collections of the large-collection family whose members the pinned tree cannot order consistently
+// (M: the empty set against tuples, strings against sets ...; SS: sets of sets) or whose entries it keeps
+// in a hash-ordered set (MD: a dictionary key with ten values). Their printed / sorted / ranked order follows
+// the enumeration order (recorded findings, see C06), and WHICH of the programs over them happens to show it
+// moves with every change of the binary. Like the regions of the representation space, a configuration-
+// dependent output of a program over such a collection is signed by the collection, not by the program.
+var c07Inconsistent = map[string]string{
+	`{1, 2, 3, "a", "b", [1], [2], (a:1), (b:2), {1}, {2}, {}, (@:0,@item:1), 1\"x"}`:             "M",
+	"{{1,2,3}, {4,5,6}, {7,8,9}, {1,4,7}, {2,5,8}, {3,6,9}, {1,5,9}, {3,5,7}, {}, {1}, {2}, {3}}": "SS",
+	"{1:1} | {1:2} | {1:3} | {1:4} | {1:5} | {1:6} | {1:7} | {1:8} | {1:9} | {1:10} | {2:1}":      "MD",
+}
+
+var c07InconsistentWord = regexp.MustCompile(`\b(M|SS|MD)\b`)
+
+var c07TupleLit = regexp.MustCompile(`\([a-z@]+ ?:`)
+
 func c07Class(p c07Prog) string {
+	if !strings.HasPrefix(p.src, "let ") && strings.Contains(p.src, "{}") && c07TupleLit.MatchString(p.src) {
+		// small literals and construction paths holding the empty set next to a tuple: the same inconsistently ordered pair
+		return "inconsistently-ordered-collection:empty-set-with-tuple"
+	}
 	if p.group != "" {
 		return "literal:" + strings.SplitN(p.group, "/", 2)[0]
 	}
 	if i := strings.LastIndex(p.src, "; "); i >= 0 && strings.HasPrefix(p.src, "let ") {
+		if strings.HasPrefix(p.src, "let x = ") {
+			if n, ok := c07Inconsistent[p.src[len("let x = "):i]]; ok {
+				return "inconsistently-ordered-collection:" + n
+			}
+		} else if ms := c07InconsistentWord.FindAllString(p.src[i+2:], -1); len(ms) > 0 {
+			seen := map[string]bool{}
+			var ns []string
+			for _, m := range ms {
+				if !seen[m] {
+					seen[m] = true
+					ns = append(ns, m)
+				}
+			}
+			sort.Strings(ns)
+			return "inconsistently-ordered-collection:" + strings.Join(ns, "+")
+		}
 		// large-collection programs: the collection (for unary forms) and the form itself
 		form := p.src[i+2:]
 		if strings.HasPrefix(p.src, "let x = ") {
@@ -309,6 +346,6 @@ func c07Class(p c07Prog) string {
 
 var C07 = core.Check{
 	ID: "C07", Level: "exploration", Fn: checkC07, Rounds: roundsC07, EnvFor: c07Config, Watchdog: 120 * time.Second,
-	Rule: "environment configurations are enumerated: 16 (quick: 4 hash seeds x 4 Go-map iteration keys) / 64 (thorough) worker processes, each with the seeds of arr-ai/hash and frozen's internal hash fixed from VERIF_HASH_SEED and Go map iteration offsets/seeds fixed from VERIF_MAPITER (toolchain overlay). In every configuration the whole program set is evaluated (twice): every construction path of the representation space, all literal orderings (n<=4) of sets/unions/tuples/dicts/relations of every kind with orderby/=>/rank/nest on them, and 10 collections of 10-14 elements (above frozen's leaf size, where seeds change traversal order) under 21 unary forms (incl. set, array, tuple and dict patterns applied to them), 23 relational forms (all joins, nest, rank with ties) and 26 set/tuple/dict forms incl. a dictionary key with 10 values. Every program must print identical bytes (fu.Repr or error class) in every configuration and twice within one process, and all literal orderings of one collection must print identically. non-trivial = large-collection or literal-ordering program",
+	Rule:   "environment configurations are enumerated: 16 (quick: 4 hash seeds x 4 Go-map iteration keys) / 64 (thorough) worker processes, each with the seeds of arr-ai/hash and frozen's internal hash fixed from VERIF_HASH_SEED and Go map iteration offsets/seeds fixed from VERIF_MAPITER (toolchain overlay). In every configuration the whole program set is evaluated (twice): every construction path of the representation space, all literal orderings (n<=4) of sets/unions/tuples/dicts/relations of every kind with orderby/=>/rank/nest on them, and 10 collections of 10-14 elements (above frozen's leaf size, where seeds change traversal order) under 21 unary forms (incl. set, array, tuple and dict patterns applied to them), 23 relational forms (all joins, nest, rank with ties) and 26 set/tuple/dict forms incl. a dictionary key with 10 values. Every program must print identical bytes (fu.Repr or error class) in every configuration and twice within one process, and all literal orderings of one collection must print identically. non-trivial = large-collection or literal-ordering program",
 	Assume: []string{"the seed space is not exhausted: the claim is for all configurations of the enumerated family; a canary fails the run as vacuous if the family does not vary the enumeration order of a 12-element set or the iteration order of a 12-entry Go map", "orderby/order with tied keys are exempt by the property and not generated", "stack-allocated Go maps keep random seeds (arr.ai iterates heap maps only; the within-process double evaluation would expose a leak)"},
 }
